@@ -8,6 +8,7 @@ codec is exercised by the `server` correspondence stream). The theorems lift the
 dictionary.
 -/
 import StarModel.Lemmas.Ppoprf
+import StarModel.Lemmas.KeyState
 import StarModel.Props.C10
 
 namespace StarModel.Props.C14
@@ -261,5 +262,220 @@ theorem C14_slots_independent (F : Perm) (slots : List Server) (i j : Nat) (hij 
     (hi : i < slots.length) :
     (slots.set i (applyPuncture F slots[i] md))[j]? = slots[j]? := by
   rw [List.getElem?_set_ne hij]
+
+/-! ### export + import at the level of BYTES (feature `key-sync`) -/
+
+/-- what `Server::get_private_key` hands to the serialiser: OPRF key, public key, and the
+puncturable key (its two PRG keys, retained nodes, punctured list) -/
+def exportState (srv : Server) : Codec.KeyState :=
+  ⟨srv.oprfKey, srv.publicKey, [srv.prgKey0, srv.prgKey1], srv.ggm⟩
+
+/-- `bincode::serialize(&server.get_private_key())` -/
+def exportBytes (srv : Server) : Bytes := Codec.keyStateToBincode (exportState srv)
+
+/-- `Server::set_private_key(bincode::deserialize(bytes)?)`: whole-state replacement - nothing of the
+importing server survives (a GGM key with other than two PRG keys cannot be evaluated; it is not a
+server value of this model) -/
+def importBytes (_dst : Server) (bs : Bytes) : Option Server :=
+  match Codec.keyStateFromBincode bs with
+  | some ⟨k, pk, [k0, k1], ggm⟩ => some ⟨k, pk, k0, k1, ggm⟩
+  | _ => none
+
+/-- the servers `Server::new` creates (and every server reached from one): canonical OPRF key,
+32-byte group elements in a strictly ordered tag map, 32-byte PRG keys -/
+structure ServerValid (srv : Server) : Prop where
+  key : srv.oprfKey < Scalar25519.ell
+  base : srv.publicKey.basePk.length = 32
+  tags : Codec.StrictTags srv.publicKey.mdPks
+  entries : ∀ e ∈ srv.publicKey.mdPks, e.2.length = 32
+  prg0 : srv.prgKey0.length = 32
+  prg1 : srv.prgKey1.length = 32
+
+/-- (U) **A server restored from exported state is the exporter at the moment of export — at the
+level of bytes.** For a valid server whose GGM tree started from `(s0, s1)`, after ANY history of
+punctures, serialising its key state with bincode (bitvec layout included) and importing those bytes
+(followed by any trailing bytes) into ANY other server yields exactly the exporter's value: same OPRF
+key, public key, PRG keys, retained nodes and punctured list. With `C14_eval_characterisation` this
+makes the restored server answer every request as the exporter does, every puncture made so far
+included. (bincode / bitvec formats are modelled, see `Codec.lean`, and tied to the crates by the
+`codec` and `server` streams.) -/
+theorem C14_export_import_bytes (F : Perm) (srv0 : Server) (s0 s1 : Bytes) (hg : srv0.ggm = initKey s0 s1)
+    (hv : ServerValid srv0) (hs0 : s0.length = 32) (hs1 : s1.length = 32)
+    (mds : List UInt8) (dst : Server) (tail : Bytes) :
+    importBytes dst (exportBytes (afterPunctures F srv0 mds) ++ tail) = some (afterPunctures F srv0 mds) := by
+  obtain ⟨h1, h2, h3, h4, h5⟩ := C14_frame F srv0 mds
+  have hlen : Params.ggmInpLen = 1 := rfl
+  obtain ⟨hinv, _, hP⟩ := C10.C10_reachable_inv (srv0.g F) 1 (le_refl 1) s0 s1
+    (mds.map fun m => Ggm.Op.puncture [m])
+  have hkey : (afterPunctures F srv0 mds).ggm =
+      C10.keyAfter (srv0.g F) 1 s0 s1 (mds.map fun m => Ggm.Op.puncture [m]) := by
+    rw [h5, hg, hlen]; rfl
+  have hvalid : Codec.KeyStateValid (exportState (afterPunctures F srv0 mds)) := by
+    unfold Codec.KeyStateValid exportState
+    simp only
+    rw [h1, h2, h3, h4, hkey]
+    refine ⟨hv.key, hv.base, hv.tags, hv.entries, ?_, by simp, ?_, ?_, ?_, ?_⟩
+    · intro p hp
+      simp only [List.mem_cons, List.not_mem_nil, or_false] at hp
+      rcases hp with rfl | rfl
+      · exact hv.prg0
+      · exact hv.prg1
+    · -- fewer than 2^9 retained nodes
+      have hnd := KeyStateLemmas.nodup_of_prefixFree _ hinv.prefixFree
+      have hb : ∀ p ∈ (C10.keyAfter (srv0.g F) 1 s0 s1 (mds.map fun m => Ggm.Op.puncture [m])).prefixes.map Prod.fst,
+          p.length ≤ 8 := by
+        intro p hp
+        obtain ⟨ps, hps, rfl⟩ := List.mem_map.1 hp
+        exact (hinv.bounds ps hps).2
+      have := KeyStateLemmas.nodup_bits_length_lt _ 8 hnd hb
+      rw [List.length_map] at this
+      exact Nat.lt_trans this (by decide)
+    · intro p hp
+      refine ⟨Nat.le_trans (hinv.bounds p hp).2 (by decide), ?_⟩
+      rw [hinv.seeds p hp]
+      obtain ⟨hne, _⟩ := hinv.bounds p hp
+      cases hp1 : p.1 with
+      | nil => exact absurd hp1 hne
+      | cons b rest =>
+        rw [ideal_cons]
+        show (bitEval (Ggm.strobeG F srv0.prgKey0 srv0.prgKey1) rest _).length < 2 ^ 64
+        rw [KeyStateLemmas.bitEval_length]
+        cases b <;> split <;> simp [hs0, hs1, Params.ggmSeedLen]
+    · -- at most 2^9 punctured inputs (in fact at most 256)
+      rw [hinv.punct]
+      have hnd : (C10.puncturedAfter (srv0.g F) 1 s0 s1 (mds.map fun m => Ggm.Op.puncture [m])).Nodup := by
+        rw [hP]; exact KeyStateLemmas.specRun_nodup _ _ _ _ _ _ List.nodup_nil
+      have := KeyStateLemmas.nodup_bits_length_lt _ 8 hnd (fun x hx => Nat.le_of_eq (hinv.full x hx))
+      exact Nat.lt_trans this (by decide)
+    · intro b hb
+      rw [hinv.punct] at hb
+      rw [hinv.full b hb]; decide
+  unfold importBytes exportBytes
+  rw [Codec.keyStateFromBincode_emit _ hvalid]
+  rfl
+
+/-- `ServerValid` holds for what `Server::new` creates over a lawful group, and punctures keep it -/
+theorem serverValid_afterPunctures (F : Perm) (srv0 : Server) (hv : ServerValid srv0) (mds : List UInt8) :
+    ServerValid (afterPunctures F srv0 mds) := by
+  obtain ⟨h1, h2, h3, h4, _⟩ := C14_frame F srv0 mds
+  exact ⟨by rw [h1]; exact hv.key, by rw [h2]; exact hv.base, by rw [h2]; exact hv.tags,
+    by rw [h2]; exact hv.entries, by rw [h3]; exact hv.prg0, by rw [h4]; exact hv.prg1⟩
+
+/-- `BTreeMap::insert` keeps the tag map strictly ordered and its values 32 bytes long -/
+theorem mdInsert_valid (md : UInt8) (pt : Bytes) (hpt : pt.length = 32) (l : List (UInt8 × Bytes))
+    (hs : Codec.StrictTags l) (he : ∀ e ∈ l, e.2.length = 32) :
+    Codec.StrictTags (mdInsert md pt l) ∧ (∀ e ∈ mdInsert md pt l, e.2.length = 32) ∧
+    (∀ e ∈ mdInsert md pt l, e.1 = md ∨ e ∈ l) := by
+  induction l with
+  | nil =>
+    refine ⟨by simp [mdInsert, Codec.StrictTags], ?_, ?_⟩ <;>
+    · intro e h; simp only [mdInsert, List.mem_singleton] at h; subst h; simp [hpt]
+  | cons kv rest ih =>
+    obtain ⟨k, v⟩ := kv
+    unfold Codec.StrictTags at hs
+    rw [List.pairwise_cons] at hs
+    obtain ⟨hk, hrest⟩ := hs
+    simp only [mdInsert]
+    by_cases h1 : md < k
+    · rw [if_pos h1]
+      refine ⟨?_, ?_, ?_⟩
+      · unfold Codec.StrictTags
+        rw [List.pairwise_cons]
+        refine ⟨?_, List.pairwise_cons.2 ⟨hk, hrest⟩⟩
+        intro e hm
+        rw [List.mem_cons] at hm
+        rcases hm with rfl | hm
+        · exact h1
+        · exact UInt8.lt_trans h1 (hk e hm)
+      · intro e hm
+        rw [List.mem_cons] at hm
+        rcases hm with rfl | hm
+        · exact hpt
+        · exact he e hm
+      · intro e hm
+        rw [List.mem_cons] at hm
+        rcases hm with rfl | hm
+        · exact Or.inl rfl
+        · exact Or.inr hm
+    · rw [if_neg h1]
+      by_cases h2 : md = k
+      · rw [if_pos h2]
+        refine ⟨?_, ?_, ?_⟩
+        · unfold Codec.StrictTags
+          rw [List.pairwise_cons]
+          exact ⟨fun e hm => by rw [h2]; exact hk e hm, hrest⟩
+        · intro e hm
+          rw [List.mem_cons] at hm
+          rcases hm with rfl | hm
+          · exact hpt
+          · exact he e (List.mem_cons_of_mem _ hm)
+        · intro e hm
+          rw [List.mem_cons] at hm
+          rcases hm with rfl | hm
+          · exact Or.inl rfl
+          · exact Or.inr (List.mem_cons_of_mem _ hm)
+      · rw [if_neg h2]
+        obtain ⟨i1, i2, i3⟩ := ih hrest (fun e hm => he e (List.mem_cons_of_mem _ hm))
+        have hlt : k < md := by
+          have a1 : ¬ md.toNat < k.toNat := fun h => h1 (UInt8.lt_iff_toNat_lt.2 h)
+          have a2 : md.toNat ≠ k.toNat := fun h => h2 (UInt8.toNat_inj.1 h)
+          exact UInt8.lt_iff_toNat_lt.2 (by omega)
+        refine ⟨?_, ?_, ?_⟩
+        · unfold Codec.StrictTags
+          rw [List.pairwise_cons]
+          refine ⟨?_, i1⟩
+          intro e hm
+          rcases i3 e hm with h | h
+          · rw [h]; exact hlt
+          · exact hk e h
+        · intro e hm
+          rw [List.mem_cons] at hm
+          rcases hm with rfl | hm
+          · exact he _ (List.mem_cons_self ..)
+          · exact i2 e hm
+        · intro e hm
+          rw [List.mem_cons] at hm
+          rcases hm with rfl | hm
+          · exact Or.inr (List.mem_cons_self ..)
+          · rcases i3 e hm with h | h
+            · exact Or.inl h
+            · exact Or.inr (List.mem_cons_of_mem _ h)
+
+/-- (U) what `Server::new` creates over a group with 32-byte encodings is a valid server: together
+with `C14_export_import_bytes` and `serverValid_afterPunctures`, every server of every history can
+be exported and restored byte-exactly -/
+theorem serverValid_new (hcl : ∀ P : G, (ops.compress P).length = 32) (F : Perm) (key : Nat)
+    (hkey : key < Scalar25519.ell) (k0 k1 s0 s1 : Bytes) (hk0 : k0.length = 32) (hk1 : k1.length = 32)
+    (mds0 : List UInt8) (srv0 : Server) (h : Server.new ops F key k0 k1 s0 s1 mds0 = .ok srv0) :
+    ServerValid srv0 ∧ srv0.ggm = initKey s0 s1 := by
+  unfold Server.new at h
+  simp only at h
+  cases hn : newMdPks ops F k0 k1 (initKey s0 s1) mds0 [] with
+  | err e => rw [hn] at h; cases h
+  | panic w => rw [hn] at h; cases h
+  | ok pks =>
+    rw [hn] at h
+    injection h with h
+    subst h
+    have key' : ∀ (l : List UInt8) (acc res : List (UInt8 × Bytes)),
+        newMdPks ops F k0 k1 (initKey s0 s1) l acc = .ok res →
+        Codec.StrictTags acc → (∀ e ∈ acc, e.2.length = 32) →
+        Codec.StrictTags res ∧ ∀ e ∈ res, e.2.length = 32 := by
+      intro l
+      induction l with
+      | nil => intro acc res hr h1 h2; unfold newMdPks at hr; injection hr with hr; subst hr; exact ⟨h1, h2⟩
+      | cons m ms ih =>
+        intro acc res hr h1 h2
+        unfold newMdPks at hr
+        cases hts : tagScalar F k0 k1 (initKey s0 s1) m with
+        | err e => rw [hts] at hr; cases hr
+        | panic w => rw [hts] at hr; cases hr
+        | ok ts =>
+          rw [hts] at hr
+          simp only at hr
+          obtain ⟨i1, i2, _⟩ := mdInsert_valid m _ (hcl _) acc h1 h2
+          exact ih _ _ hr i1 i2
+    obtain ⟨t1, t2⟩ := key' mds0 [] pks hn (by simp [Codec.StrictTags]) (by simp)
+    exact ⟨⟨hkey, hcl _, t1, t2, hk0, hk1⟩, rfl⟩
 
 end StarModel.Props.C14
